@@ -272,6 +272,46 @@ def run(ctx):
                        msg=f'{hname[1:]} writes the cells {shown} of its matrix argument, expected {w_start} + {w_stride} * [0, {w_count}) (the whole row / column)')
     r.require_min(6)
 
+    # ---------------- R04k rows of the Vandermonde matrix are powers of the row number, each row starting at 1
+    r = ctx.rule('R04k', 'Vandermonde rows: the entry written in row i starts at 1 for every row and is multiplied by i from one column to the next (i^0, i^1, ...)',
+                 'a power accumulator carried over from the previous row scales every later row by a constant: still an MDS code, but other parity bytes than every released build')
+    vf = rsm.functions.get('@create_non_systematic_vand_matrix')
+    if vf is None:
+        raise AnalysisBroken('anchor vanished: create_non_systematic_vand_matrix')
+    from ..loops import loops_of as _lo4k, innermost as _in4k
+    pcv = PolyCtx(P, vf)
+    LSv = _lo4k(P, vf, pcv)
+    nacc = 0
+    for st_ in [i for i in vf.insts() if i.op == 'store' and i.ty == 'i32']:
+        Lin = _in4k(LSv, st_.bb)
+        outer = [L_ for L_ in LSv if Lin is not None and Lin.body < L_.body]
+        if Lin is None or not outer:
+            continue
+        vd = vf.defs.get(strip_int_casts(vf, st_.ops[0]))
+        if vd is None or vd.op != 'phi' or vd.bb is not Lin.header:
+            continue
+        nacc += 1
+        inits = [v_ for v_, l_ in vd.incoming if vf.blocks[l_] not in Lin.body]
+        steps = [v_ for v_, l_ in vd.incoming if vf.blocks[l_] in Lin.body]
+        Lout = sorted(outer, key=lambda L_: len(L_.body))[0]
+        def is_step(v_):
+            d_ = vf.defs.get(strip_int_casts(vf, v_))
+            if d_ is None or d_.op != 'call' or d_.callee != '@rs_galois_mult':
+                return False
+            ops_ = [strip_int_casts(vf, o) for o in d_.ops[:2]]
+            others = [o for o in ops_ if o != vd.res]
+            return vd.res in ops_ and len(others) == 1 and others[0] in Lout.ivs() and Lout.ivs()[others[0]][1] == Poly.const(1)
+        inst = f'create_non_systematic_vand_matrix: entries stored at line {st_.line}'
+        if inits and all(v_ == '1' for v_ in inits) and steps and all(is_step(v_) for v_ in steps):
+            r.ok(inst + ': power accumulator restarts at 1 in every row and is multiplied by the row number', func=vf.name, loc=st_.loc)
+        else:
+            r.fail(inst, func=vf.name, sig=f'vandermonde accumulator starts at {inits}', loc=st_.loc,
+                   msg=f'the value written into row i starts the row as {inits} (must be the constant 1) / is advanced by {[Canon(P, vf).val(v_)[:40] for v_ in steps]} '
+                       '(must be rs_galois_mult(acc, i)): the rows are no longer 1, i, i^2, ...')
+    if not nacc:
+        r.undecided('create_non_systematic_vand_matrix: power accumulator', loc=vf.mod.src, msg='no store of a loop-carried value inside the row/column loops found')
+    r.require_min(1)
+
     # ---------------- R04j encode: parity j is the dot product of generator row k + j with the data, over the whole block
     r = ctx.rule('R04j', 'RS encode: each parity buffer is cleared and then filled by region_dot_product(data, parity[j], row k+j, k, blocksize) - nothing else writes it',
                  'parity j must equal the generator row k + j applied to every byte of the data: a strip-wise or special-cased row computes some bytes from the wrong source')
